@@ -115,6 +115,19 @@ func genC06() {
 	})
 	facts["c06_sendpsync_offset"] = offs
 
+	// the capabilities advertised before PSYNC (`capa eof` would make a diskless master answer
+	// `$EOF:<40 bytes>`, which waitRdbDump refuses)
+	var capa []string
+	ast.Inspect(c06Func(f2, "StandaloneRedis", "SendPSyncCapabilities").Body, func(n ast.Node) bool {
+		if x, ok := n.(*ast.CallExpr); ok {
+			if sl, ok := x.Fun.(*ast.SelectorExpr); ok && sl.Sel.Name == "NewCommand" {
+				capa = append(capa, c12Render(fset2, x))
+			}
+		}
+		return true
+	})
+	facts["c06_capabilities"] = capa
+
 	// ---- conditions of the run glue, and what every `if err != nil` of syncMeta /
 	// fetchInput / sendOutput / readChannel / syncData does with the error
 	var flow, errs []string
@@ -195,6 +208,113 @@ func genC06() {
 		})
 	}
 	facts["c06_handoff_stores"] = hand
+
+	// ---- the attempt model (lean/GunYu/Model/PsyncAtt.lean): sendPsync's size loop, the three
+	// tries of output.StartPoint, Run's loop
+	var att []string
+	spf := c06Func(f, "RedisInput", "sendPsync")
+	ast.Inspect(spf.Body, func(n ast.Node) bool {
+		switch x := n.(type) {
+		case *ast.ForStmt:
+			if x.Cond != nil {
+				att = append(att, "sendPsync: for "+c12Render(fset, x.Cond))
+			}
+		case *ast.IfStmt:
+			att = append(att, "sendPsync: if "+c12Render(fset, x.Cond))
+		}
+		return true
+	})
+	gsp := c06Func(f, "RedisInput", "getOutputStartPoint")
+	ast.Inspect(gsp.Body, func(n ast.Node) bool {
+		if x, ok := n.(*ast.CallExpr); ok {
+			if sl, ok := x.Fun.(*ast.SelectorExpr); ok && (sl.Sel.Name == "RetryLinearJitter" || sl.Sel.Name == "Join") {
+				args := []string{}
+				for _, a := range x.Args {
+					if _, isFn := a.(*ast.FuncLit); isFn {
+						args = append(args, "func")
+					} else {
+						args = append(args, c12Render(fset, a))
+					}
+				}
+				att = append(att, "getOutputStartPoint: "+sl.Sel.Name+"("+strings.Join(args, ", ")+")")
+			}
+		}
+		return true
+	})
+	runf := c06Func(f, "RedisInput", "Run")
+	ast.Inspect(runf.Body, func(n ast.Node) bool {
+		switch x := n.(type) {
+		case *ast.ForStmt:
+			if x.Cond != nil {
+				att = append(att, "Run: for "+c12Render(fset, x.Cond))
+			}
+		case *ast.IfStmt:
+			c := c12Render(fset, x.Cond)
+			if x.Init != nil {
+				c = c12Render(fset, x.Init) + "; " + c
+			}
+			att = append(att, "Run: if "+c)
+		case *ast.BranchStmt:
+			att = append(att, "Run: "+x.Tok.String())
+		case *ast.CallExpr:
+			if sl, ok := x.Fun.(*ast.SelectorExpr); ok && (sl.Sel.Name == "DelRunId" || sl.Sel.Name == "Sleep" || sl.Sel.Name == "Close") {
+				att = append(att, "Run: "+c12Render(fset, x))
+			}
+		}
+		return true
+	})
+	bo := c06Func(f, "RedisInput", "runLoopBackoff")
+	ast.Inspect(bo.Body, func(n ast.Node) bool {
+		if x, ok := n.(*ast.ReturnStmt); ok {
+			att = append(att, "runLoopBackoff: "+c12Render(fset, x))
+		}
+		return true
+	})
+	facts["c06_attempt_loop"] = att
+
+	// ---- ResetStartPoint -> DelCheckpoint: the order in which a label's records are deleted
+	fset4, f4 := parseFile("pkg/redis/checkpoint/checkpoint.go")
+	dc := c06Func(f4, "", "DelCheckpoints")
+	var ord []string
+	for _, st := range c06Func(f4, "", "DelCheckpoint").Body.List {
+		ord = append(ord, "DelCheckpoint: "+c12Render(fset4, st))
+	}
+	ast.Inspect(dc.Body, func(n ast.Node) bool {
+		switch x := n.(type) {
+		case *ast.CallExpr:
+			if sl, ok := x.Fun.(*ast.SelectorExpr); ok && sl.Sel.Name == "fetchCheckpoint" {
+				ord = append(ord, c12Render(fset4, x))
+			}
+			if id, ok := x.Fun.(*ast.Ident); ok && id.Name == "fetchCheckpoint" {
+				ord = append(ord, c12Render(fset4, x))
+			}
+			if sl, ok := x.Fun.(*ast.SelectorExpr); ok && strings.HasPrefix(c12Render(fset4, sl), "sort.Slice") && len(x.Args) == 2 {
+				ord = append(ord, c12Render(fset4, sl)+"("+c12Render(fset4, x.Args[0])+")")
+				if fl, ok := x.Args[1].(*ast.FuncLit); ok {
+					for _, st := range fl.Body.List {
+						ord = append(ord, "less: "+strings.Join(strings.Fields(c12Render(fset4, st)), " "))
+					}
+				}
+			}
+		case *ast.RangeStmt:
+			ord = append(ord, "range "+c12Render(fset4, x.X))
+		case *ast.IfStmt:
+			if c12Render(fset4, x.Cond) == "err != nil" && len(x.Body.List) == 1 {
+				ord = append(ord, "if err != nil { "+c12Render(fset4, x.Body.List[0])+" }")
+			}
+		}
+		return true
+	})
+	// ResetStartPoint hands ALL its labels to one deletion
+	ast.Inspect(c06Func(f3, "RedisOutput", "ResetStartPoint").Body, func(n ast.Node) bool {
+		if x, ok := n.(*ast.CallExpr); ok {
+			if sl, ok := x.Fun.(*ast.SelectorExpr); ok && strings.HasPrefix(sl.Sel.Name, "DelCheckpoint") {
+				ord = append(ord, "ResetStartPoint: "+c12Render(fset3, x))
+			}
+		}
+		return true
+	})
+	facts["c06_delcheckpoint_order"] = ord
 	_ = token.NoPos
 	_ = strings.TrimSpace
 }
